@@ -42,10 +42,15 @@ Iter(id) == [k |-> "iter", id |-> id]
 \* ---- machine state ----------------------------------------------------------------
 \* st: operand stack (st[i] is slot i-1 of the implementation), fr: frames (last = current),
 \* g: globals, cells: boxes of captured variables, h: heap, its: iterators
-InitVM(P) ==
+RECURSIVE SetInputs(_, _, _)
+SetInputs(mm, g0, i) ==   \* variables the host added before compiling: their values are in the globals from the start
+  IF i > Len(g0) THEN mm
+  ELSE LET r == Intern(mm.h, g0[i][2], 0) IN SetInputs([mm EXCEPT !.h = r.h, !.g[g0[i][1]] = r.v], g0, i + 1)
+
+InitVM(P) == SetInputs(
   [st |-> <<>>, fr |-> <<[f |-> 1, ip |-> 1, bp |-> 0, free |-> <<>>, discard |-> FALSE, id |-> 0]>>, nclos |-> 0,
    g |-> [i \in 1..P.nglobals |-> VUndef], cells |-> <<>>, h |-> EmptyHeap, its |-> <<>>,
-   status |-> "run", err |-> ""]
+   status |-> "run", err |-> ""], P.g0, 1)
 
 Cur(m) == m.fr[Len(m.fr)]
 SP(m) == Len(m.st)
@@ -68,7 +73,7 @@ Deref(m, v) == IF v.k = "ptr" THEN m.cells[v.c] ELSE v
 BinTok(t) ==   \* token numbers of token/tokens.go used by BINARYOP
   CASE t = 11 -> "+" [] t = 12 -> "-" [] t = 13 -> "*" [] t = 14 -> "/" [] t = 15 -> "%"
     [] t = 16 -> "&" [] t = 17 -> "|" [] t = 18 -> "^" [] t = 19 -> "<<" [] t = 20 -> ">>" [] t = 21 -> "&^"
-    [] t = 38 -> "<" [] t = 39 -> ">" [] t = 45 -> "<=" [] t = 46 -> ">=" [] OTHER -> "?"
+    [] t = 38 -> "<" [] t = 39 -> ">" [] t = 43 -> "<=" [] t = 44 -> ">=" [] OTHER -> "?"
 
 \* selector assignment: indexAssign(dst, src, selectors) of vm.go
 RECURSIVE Descend(_, _, _, _)
@@ -77,7 +82,9 @@ Descend(h, dst, sels, i) ==   \* i from Len(sels) down to 2: IndexGet chain
   ELSE LET r == IndexGet(h, dst, sels[i]) IN IF ~r.ok THEN r ELSE Descend(r.h, r.v, sels, i - 1)
 IndexAssign(h, dst, src, sels) ==
   LET d == Descend(h, dst, sels, Len(sels)) IN
-  IF ~d.ok THEN d ELSE IndexSet(d.h, d.v, sels[1], src)
+  IF ~d.ok THEN d
+  ELSE IF d.v.k = "array" /\ ~d.v.imm /\ Partners(d.h, d.v.sid) # {} THEN Excluded("capacity")   \* might be visible through a sharing store
+  ELSE IndexSet(d.h, d.v, sels[1], src)
 
 \* ---- iterators ----------------------------------------------------------------------
 NewIter(m, v) ==
@@ -125,13 +132,17 @@ CallBuiltin(P, m, callee, n) ==
       r == IF callee.name = "append"
            THEN (IF n < 2 THEN Err("wrong_num_args")
                  ELSE IF args[1].k # "array" THEN Err("invalid_arg_type")
-                 ELSE IF Partners(m.h, args[1].sid) # {} THEN Excluded("capacity")
                  ELSE LET a == args[1] L == Len(m.h.stores[a.sid]) end == a.off + a.len k == n - 1 items == SubSeq(args, 2, n) IN
-                      IF end + k <= L /\ ~a.imm
-                      THEN Ok([m.h EXCEPT !.stores[a.sid] = [i \in 1..L |-> IF i > end /\ i <= end + k THEN items[i - end] ELSE @[i]]],
-                              VArr(FALSE, a.sid, a.off, a.len + k))
-                      ELSE IF end + k <= L THEN NewArr(m.h, ArrElems(m.h, a) \o items)
-                      ELSE Excluded("capacity"))      \* growth: Go's capacity policy is not modelled here
+                      \* Go semantics where Go is deterministic; a store that may share a hidden capacity with another one
+                      \* (it was the source or the result of a growing append) is not written through: excluded
+                      IF end + k <= L
+                      THEN (IF a.imm THEN NewArr(m.h, ArrElems(m.h, a) \o items)
+                            ELSE IF Partners(m.h, a.sid) # {} THEN Excluded("capacity")
+                            ELSE Ok([m.h EXCEPT !.stores[a.sid] = [i \in 1..L |-> IF i > end /\ i <= end + k THEN items[i - end] ELSE @[i]]],
+                                    VArr(FALSE, a.sid, a.off, a.len + k)))
+                      ELSE IF ~a.imm /\ (\E q \in m.h.pairs : q[1] = a.sid) THEN Excluded("capacity")
+                      ELSE LET r0 == NewArr(m.h, ArrElems(m.h, a) \o items) IN
+                           IF a.imm THEN r0 ELSE Ok([r0.h EXCEPT !.pairs = @ \cup {<<a.sid, r0.v.sid>>}], r0.v))
            ELSE S!Builtin([h |-> m.h], callee.name, args)
   IN IF r.ok THEN Adv(Push(WithH(m1, r.h), r.v))
      ELSE IF r.kind = "excluded" THEN Excl(m, r.why) ELSE Fail(m1, r.kind)
@@ -229,19 +240,21 @@ Step(P, m) ==
                            IN IF r.ok THEN Adv(WithH(Pop(m, n + 1), r.h))
                               ELSE IF r.kind = "excluded" THEN Excl(m, r.why) ELSE Fail(Pop(m, n + 1), r.kind))
     [] op = "ITER" -> One(LET v == Top(m) IN
-                          IF v.k \notin {"array", "map", "string", "bytes", "undef"} THEN Fail(Pop(m, 1), "not_iterable")
+                          IF v.k = "undef" THEN Adv(m)       \* undefined is its own (empty) iterator
+                          ELSE IF v.k \notin {"array", "map", "string", "bytes"} THEN Fail(Pop(m, 1), "not_iterable")
                           ELSE Adv(Push([Pop(m, 1) EXCEPT !.its = Append(@, NewIter(m, v))], Iter(Len(m.its) + 1))))
     [] op = "ITNXT" ->
+         IF Top(m).k = "undef" THEN One(Adv(Push(Pop(m, 1), VBool(FALSE)))) ELSE
          LET id == Top(m).id it == m.its[id] IN
          IF it.kind = "map"
          THEN IF it.left = {} THEN One(Adv(Push(Pop(m, 1), VBool(FALSE))))
               ELSE {Adv(Push([Pop(m, 1) EXCEPT !.its[id].key = k, !.its[id].left = @ \ {k}], VBool(TRUE))) : k \in it.left}
          ELSE One(Adv(Push([Pop(m, 1) EXCEPT !.its[id].pos = @ + 1], VBool(it.pos + 1 <= it.n))))
     [] op = "ITKEY" ->
-         One(LET it == m.its[Top(m).id] IN
+         One(IF Top(m).k = "undef" THEN Adv(m) ELSE LET it == m.its[Top(m).id] IN
              Adv(Push(Pop(m, 1), CASE it.kind = "map" -> VStr(it.key) [] it.kind = "undef" -> VUndef [] OTHER -> VInt(it.pos - 1))))
     [] op = "ITVAL" ->
-         One(LET it == m.its[Top(m).id] IN
+         One(IF Top(m).k = "undef" THEN Adv(m) ELSE LET it == m.its[Top(m).id] IN
              Adv(Push(Pop(m, 1),
                  CASE it.kind = "array" -> m.h.stores[it.src.sid][it.src.off + it.pos]
                    [] it.kind = "map" -> TableGet(TableOf(m.h, it.src), it.key)
@@ -292,8 +305,9 @@ Consume ==
          stop == {x \in succ : x.status # "run"}
      IN IF good # {} THEN /\ vm' \in good /\ l' = l + 1 /\ UNCHANGED <<ti, verdict>>
         ELSE IF \E x \in stop : x.status = "excluded" THEN /\ vm' \in {x \in stop : x.status = "excluded"} /\ UNCHANGED <<ti, l, verdict>>
-        ELSE /\ verdict' = [ok |-> FALSE, at |-> l + 1,
-                            why |-> IF stop # {} THEN "the machine stops (" \o (CHOOSE x \in stop : TRUE).status \o ") but the run went on"
+        ELSE \* no successor agrees: this path is dead (if it was the only one, the run is rejected - see the check)
+             /\ verdict' = [ok |-> FALSE, at |-> l + 1,
+                            why |-> IF stop # {} THEN "the machine stops (" \o (CHOOSE x \in stop : TRUE).status \o " " \o (CHOOSE x \in stop : TRUE).err \o ") but the run went on"
                                     ELSE Why(R, CHOOSE x \in succ : TRUE, R.ev[l + 1])]
              /\ UNCHANGED <<ti, l, vm>>
 
@@ -313,7 +327,7 @@ Last ==
 Finish ==
   /\ (~verdict.ok \/ vm.status # "run")
   /\ PrintT(<<"VMTRACE", ToJson([id |-> R.id, ok |-> verdict.ok, verdict |-> verdict, status |-> vm.status, why |-> vm.err, consumed |-> l, n |-> Len(R.ev),
-                                 globals |-> IF vm.status = "done" THEN [i \in 1..Len(vm.g) |-> Digest(vm, vm.g[i])] ELSE <<>>])>>)
+                                 globals |-> IF vm.status = "done" THEN [i \in 1..Len(vm.g) |-> Reify(vm.h, Deref(vm, vm.g[i]), 0)] ELSE <<>>])>>)
   /\ IF ti < Len(Runs)
      THEN /\ ti' = ti + 1 /\ l' = 1 /\ vm' = InitVM(Runs[ti + 1])
           /\ verdict' = IF Agrees(Runs[ti + 1], InitVM(Runs[ti + 1]), Runs[ti + 1].ev[1]) THEN [ok |-> TRUE] ELSE [ok |-> FALSE, why |-> "initial state", at |-> 1]
@@ -327,7 +341,7 @@ FrameDiscipline ==
   (ti > 0 /\ "fr" \in DOMAIN vm) =>
      /\ Len(vm.fr) >= 1 /\ Len(vm.fr) <= MaxFrames
      /\ \A i \in 1..Len(vm.fr) : vm.fr[i].bp <= SP(vm) /\ (i > 1 => vm.fr[i].bp >= vm.fr[i - 1].bp)
-     /\ \A i \in 2..Len(vm.fr) : vm.fr[i].bp >= 1 /\ vm.st[vm.fr[i].bp].k \in {"func", "junk"} \/ TRUE
+     /\ \A i \in 2..Len(vm.fr) : vm.fr[i].bp >= 1 /\ vm.st[vm.fr[i].bp].k = "func"      \* the callee sits below its frame
 CellsWellFormed ==
   (ti > 0 /\ "fr" \in DOMAIN vm) =>
      /\ \A i \in 1..Len(vm.st) : vm.st[i].k = "ptr" => vm.st[i].c \in 1..Len(vm.cells)
